@@ -20,8 +20,8 @@ for p, mods, corr in (
     ("C01", ["Vet.Props.Resolve"], ["corr.wire", "corr.depgraph", "corr.mapper", "corr.requirements", "corr.auditgraph", "corr.search", "corr.resolve"]),
     ("C02", ["Vet.Props.Resolve", "Vet.Props.C02Report"], ["corr.wire", "corr.depgraph", "corr.mapper", "corr.requirements", "corr.auditgraph", "corr.search", "corr.resolve"]),
     ("C03", ["Vet.Props.C03"], ["corr.wire", "corr.depgraph", "corr.mapper", "corr.requirements"]),
-    ("C04", ["Vet.Props.C04", "Vet.Props.Build", "Vet.Props.C04Keep"], ["corr.wire", "corr.mapper", "corr.auditgraph", "corr.resolve", "corr.update"]),
-    ("C06", ["Vet.Props.Build", "Vet.Props.C15"], ["corr.wire", "corr.mapper", "corr.auditgraph"]),
+    ("C04", ["Vet.Props.C04", "Vet.Props.Build", "Vet.Props.C04Keep", "Vet.Props.C11Violation"], ["corr.wire", "corr.mapper", "corr.auditgraph", "corr.resolve", "corr.update"]),
+    ("C06", ["Vet.Props.Build", "Vet.Props.C15", "Vet.Props.C06Publishers"], ["corr.wire", "corr.mapper", "corr.auditgraph", "corr.publishers"]),
     ("C12", ["Vet.Props.Resolve", "Vet.Props.C12Prune", "Vet.Props.Commands", "Vet.Props.WFCorollaries"], ["corr.wire", "corr.mapper", "corr.auditgraph", "corr.search", "corr.resolve", "corr.update", "corr.cmd.wiring"]),
 ):
     PROPS[p] = {"lean_modules": mods, "corr": corr, "trusted": CORE_TRUST, "assumptions": CORE_ASSUME,
@@ -29,7 +29,7 @@ for p, mods, corr in (
 
 UPD_TRUST = CORE_TRUST + ["final sort() of the rewritten tables is not modelled (outputs compared as sets of kept records)",
                           "command wiring (acquire, commit) exercised on the real code only"]
-for p, mods in (("C11", ["Vet.Props.C11", "Vet.Props.Commands", "Vet.Props.Renew"]), ("C09", ["Vet.Props.C10", "Vet.Props.Commands", "Vet.Props.WFCorollaries"]), ("C10", ["Vet.Props.C10", "Vet.Props.C10Regen", "Vet.Props.Commands", "Vet.Props.CommandsAsk", "Vet.Props.WFCorollaries"]), ("C13", ["Vet.Props.C13", "Vet.Props.C13Twice"])):
+for p, mods in (("C11", ["Vet.Props.C11", "Vet.Props.Commands", "Vet.Props.Renew", "Vet.Props.C11Violation"]), ("C09", ["Vet.Props.C10", "Vet.Props.Commands", "Vet.Props.WFCorollaries"]), ("C10", ["Vet.Props.C10", "Vet.Props.C10Regen", "Vet.Props.Commands", "Vet.Props.CommandsAsk", "Vet.Props.WFCorollaries"]), ("C13", ["Vet.Props.C13", "Vet.Props.C13Twice"])):
     PROPS[p] = {"lean_modules": mods, "corr": ["corr.wire", "corr.update"] + (["corr.cmd.wiring", "corr.cmd.ask", "corr.cmd.renew"] if p in ("C10", "C11") else []), "trusted": UPD_TRUST, "assumptions": CORE_ASSUME,
                 "shards": {"quick": 8, "thorough": 16},
                 "explanation": "Theorems about the model of get_store_updates; correspondence of get_store_updates under six update modes per world; oracles on the real output (function layer) and on the three store files around real commands run on disk against a mock network (command layer)."}
